@@ -389,13 +389,15 @@ pub fn tekken_json(rng: &mut Rng, variant: usize) -> Vec<u8> {
     let nspecial = if odd(rng) { *rng.pick(&[0usize, 1, 13, 15, 4294967295]) } else { 14 };
     let vs = if odd(rng) { *rng.pick(&[0usize, 1, 13, 14, 100, 4294967295, 4294967296]) } else { 14 + rng.range(1, 3) };
     let mut vocab = String::new();
+    // ranks in file order, in another order, or with gaps: a token's id is its rank, not its position
+    let ranks: [&str; 3] = *rng.pick(&[["0", "1", "2"], ["2", "0", "1"], ["1", "2", "0"], ["0", "2", "5"], ["5", "0", "2"]]);
     for (i, t) in ["YQ==", "Yg==", "YWI="].iter().enumerate() {
         if i > 0 {
             vocab.push(',');
         }
         vocab.push_str(&format!(
             r#"{{"rank":{},"token_bytes":"{}","token_str":null}}"#,
-            if odd(rng) { *rng.pick(&["4294967295", "4294967296", "18446744073709551615", "4294967281"]) } else { ["0", "1", "2"][i] },
+            if odd(rng) { *rng.pick(&["4294967295", "4294967296", "18446744073709551615", "4294967281"]) } else { ranks[i] },
             if odd(rng) { "!!" } else { t }
         ));
     }
